@@ -59,8 +59,10 @@ def k1_params(rng, g=None):
     return dict(geometry=g, D=rng.uniform(0.2, 5.0), x_d=vec(rng, g, -4, 4), t_d=rng.uniform(-2, 2))
 
 
-def k2_params(rng, g=None, equal=None):
-    """parameter sets that satisfy the constructor's ordering conditions"""
+def k2_params(rng, g=None, equal=None, loose=False):
+    """parameter sets that satisfy the constructor's ordering conditions; `loose`: detonation times up to
+    2.5 R/D2 EARLIER than documented — the constructor must reject those, and whatever it accepts must
+    still have the first-arrival structure"""
     g = g or rng.choice([2, 3])
     R = rng.uniform(0.5, 4.0)
     D2 = rng.uniform(0.5, 2.0)
@@ -72,7 +74,10 @@ def k2_params(rng, g=None, equal=None):
         a = s * R * rng.uniform(1.05, 4.0)
         bound = td3 + R * (1.0 / D1 + 1.0 / D2) - abs(a) / D2
         dets.append(a)
-        td.append(bound + rng.choice([0.0, rng.uniform(0.0, 0.5), rng.uniform(0.0, 3.0)]) + 1e-12 * (1 + abs(bound)))
+        slack = rng.choice([0.0, rng.uniform(0.0, 0.5), rng.uniform(0.0, 3.0)]) + 1e-12 * (1 + abs(bound))
+        if loose and rng.random() < 0.5:
+            slack = -rng.uniform(0.0, 2.5) * R / D2
+        td.append(bound + slack)
     return dict(geometry=g, R=R, D1=D1, D2=D2, dets=dets, t_d=[td[0], td[1], td3, td[2], td[3]])
 
 
@@ -177,7 +182,7 @@ k1 = O.make(_k1_gen, _k1_check, 'burn.k1')
 
 
 def _k2_gen(rng):
-    p = k2_params(rng)
+    p = k2_params(rng, loose=rng.random() < 0.3)
     g, R = p['geometry'], p['R']
     pts = [vec(rng, g, -4 * R, 4 * R) for _ in range(5)]
     pts += [[R * rng.uniform(0, 1) * u for u in unit(rng, g)] for _ in range(3)]          # inside the sphere
@@ -191,12 +196,15 @@ def _k2_gen(rng):
 def _k2_check(c):
     p, pts = c['params'], c['pts']
     ts = bt(K2, p, pts)
+    td = p['t_d']
+    documented = all(td[j] >= td[2] + p['R'] * (1 / p['D1'] + 1 / p['D2']) - abs(a) / p['D2']
+                     for j, a in zip((0, 1, 3, 4), p['dets']))
     if ts is None:
-        return fail('Kenamond2:rejected-valid', params=p)
+        # rejected: fine when a documented condition is violated (C20 checks that it must be)
+        return fail('Kenamond2:rejected-valid', params=p) if documented else None
     if not all(map(math.isfinite, ts)):
         return fail('Kenamond2:nonfinite', params=p)
     n = len(pts)
-    td = p['t_d']
     if min(ts) < min(td) - ATOL:
         return fail('Kenamond2:earlier-than-first-detonation', t=min(ts), t_d=td)
     for k, i in enumerate((0, 1, 2, 3, 4)):
@@ -275,6 +283,28 @@ def _k3_check(c):
     f = lip_check('Kenamond3:lipschitz', ts, pts, [(2 * k, 2 * k + 1) for k in range(4)], p['D'])
     if f:
         return f
+    # eikonal equation by central differences (step halving), away from the shadow boundary, the obstacle
+    # and the kink ray directly behind the obstacle
+    g, R = p['geometry'], p['R']
+    for q in (pts[0], pts[2]):
+        th = k3_theta(p, q)
+        cosang = -sum(u * v for u, v in zip(q, p['x_d'])) / (norm(q) * norm(p['x_d']))
+        if abs(th) < 0.05 or norm(q) < 1.05 * R or cosang > math.cos(0.05) or dist(q, p['x_d']) < 0.05 * R:
+            continue
+        errs = []
+        for h in (1e-5 * R, 0.5e-5 * R):
+            stencil = []
+            for i in range(g):
+                e = [h if j == i else 0.0 for j in range(g)]
+                stencil += [add(q, e, -1.0), add(q, e)]
+            tt = bt(K3, p, stencil)
+            if tt is None:
+                errs = None
+                break
+            gn = math.sqrt(sum(((tt[2 * i + 1] - tt[2 * i]) / (2 * h)) ** 2 for i in range(g)))
+            errs.append(abs(gn * p['D'] - 1.0))
+        if errs and min(errs) > 1e-5 and errs[1] > 0.5 * errs[0]:
+            return fail('Kenamond3:gradient-norm', p=q, theta=th, errors=errs)
     if c.get('boundary'):
         a, b = c['boundary']
         tb = bt(K3, p, [a, b])
@@ -292,7 +322,8 @@ def _dsd_gen(rng):
     radii = sorted([rng.uniform(0.0, r1), r1, rng.uniform(r1, r2), rng.uniform(r1, r2), r2, rng.uniform(r2, 3 * r2),
                     rng.uniform(r2, 3 * r2)])
     eps = rng.choice([1e-12, 1e-9, 1e-6])
-    return dict(cls=DSD, params=p, radii=radii, dir=unit(rng, 2), eps=eps,
+    return dict(cls=DSD, params=p, radii=radii, dir=unit(rng, 2), eps=eps, dir2=unit(rng, 2),
+                pair=[rng.uniform(0, 1), rng.uniform(0, 1)],
                 probe=[rng.uniform(r1 * 1.01, r2 * 0.99), rng.uniform(r2 * 1.01, 3 * r2)])
 
 
@@ -326,6 +357,13 @@ def _dsd_check(c):
         ta, tb = _dsd_t(p, u, [r * (1 - e), r * (1 + e)])
         if abs(tb - ta) > 2 * e * r / D * 1.01 + 1e-12 * (1 + abs(ta)):
             return fail('CylindricalExpansion:jump-at-' + name, below=ta, above=tb, eps=e)
+    # two points of one material: |dt| <= dist / (D_CJ - alpha/rho), rho = the smaller radius
+    for lo, hi, D, a in ((r1, r2, p['D_CJ_1'], p['alpha_1']), (r2, 3 * r2, p['D_CJ_2'], p['alpha_2'])):
+        ra, rb = c['pair'][0] * (hi - lo) + lo, c['pair'][1] * (hi - lo) + lo
+        pa, pb = [ra * u[0], ra * u[1]], [rb * c['dir2'][0], rb * c['dir2'][1]]
+        ta, tb = bt(DSD, p, [pa, pb])
+        if abs(ta - tb) > dist(pa, pb) / (D - a / min(ra, rb)) * (1 + LIP) + ATOL:
+            return fail('CylindricalExpansion:lipschitz-in-material', p=pa, q=pb, tp=ta, tq=tb)
     # dt/dr = 1/(D_CJ - alpha/r): central difference, confirmed by step halving
     for r, (D, a) in zip(c['probe'], ((p['D_CJ_1'], p['alpha_1']), (p['D_CJ_2'], p['alpha_2']))):
         want = 1.0 / (D - a / r)
